@@ -66,47 +66,54 @@ SetToSeq(SS) == LET RECURSIVE F(_)
                    F(T) == IF T = {} THEN <<>> ELSE LET x == CHOOSE y \in T : TRUE IN <<x>> \o F(T \ {x})
                IN F(SS)
 
-\* A flag set explains the recording if the flagged machine accepts it - or consumes ALL of it and
-\* then leaves the modelled fragment (a deviation sent a plain value into a plain primitive whose
-\* outcome the machine cannot compute).
-Expl(c, fs) == LET v == Accept(c, c.pys, fs) IN v.ok \/ (v.nm /\ v.at = Len(c.pys.trace) + 1)
+\* A flag set explains the recording if the flagged machine accepts it - or follows it
+\* at least as far as the statement does (at0 = where the unflagged machine rejected) and then leaves the
+\* modelled fragment: a deviation sent a plain value into a plain primitive whose outcome the machine
+\* cannot compute (e.g. `~(a < b)` once the comparison has been replaced by True).  Such partial
+\* explanations are marked `partial` in the verdict (the position need not advance: the plain primitive
+\* produces no event).
+Expl(c, fs, at0) == LET v == Accept(c, c.pys, fs) IN v.ok \/ (v.nm /\ fs # {} /\ v.at >= at0)
 
 \* exhaustive: some explaining subset of A of size k (k..kmax), {} if none
-RECURSIVE Exhaust(_, _, _, _)
-Exhaust(c, A, k, kmax) ==
+RECURSIVE Exhaust(_, _, _, _, _)
+Exhaust(c, A, k, kmax, at0) ==
   IF k > kmax \/ k > Cardinality(A) THEN {}
-  ELSE LET ex == {fs \in SUBSET A : Cardinality(fs) = k /\ Expl(c, fs)} IN
-       IF ex # {} THEN CHOOSE fs \in ex : TRUE ELSE Exhaust(c, A, k + 1, kmax)
+  ELSE LET ex == {fs \in SUBSET A : Cardinality(fs) = k /\ Expl(c, fs, at0)} IN
+       IF ex # {} THEN CHOOSE fs \in ex : TRUE ELSE Exhaust(c, A, k + 1, kmax, at0)
 
 \* greedy: add the flag that lets the machine follow the recording furthest, until it is explained
-RECURSIVE Greedy(_, _, _, _)
-Greedy(c, A, fs, at) ==
+RECURSIVE Greedy(_, _, _, _, _), Stuck(_, _, _, _, _, _)
+\* several deviations meet at the same event: try to add k = 2, 3 flags at once
+Stuck(c, A, fs, at, at0, k) ==
+  IF k > 3 THEN {}
+  ELSE LET cand == A \ fs
+           sets == {pr \in SUBSET cand : Cardinality(pr) = k}
+           okp  == {pr \in sets : Expl(c, fs \cup pr, at0)} IN
+       IF okp # {} THEN fs \cup (CHOOSE pr \in okp : TRUE)
+       ELSE LET adv == {pr \in sets : Accept(c, c.pys, fs \cup pr).at > at} IN
+            IF adv = {} THEN Stuck(c, A, fs, at, at0, k + 1)
+            ELSE LET pr == CHOOSE pr \in adv : \A q \in adv : Accept(c, c.pys, fs \cup q).at <= Accept(c, c.pys, fs \cup pr).at
+                 IN Greedy(c, A, fs \cup pr, Accept(c, c.pys, fs \cup pr).at, at0)
+Greedy(c, A, fs, at, at0) ==
   LET cand == A \ fs
       res  == [f \in cand |-> Accept(c, c.pys, fs \cup {f})]
-      oks  == {f \in cand : Expl(c, fs \cup {f})}
+      oks  == {f \in cand : Expl(c, fs \cup {f}, at0)}
   IN IF oks # {} THEN fs \cup {CHOOSE f \in oks : TRUE}
      ELSE LET best == {f \in cand : res[f].at > at /\ \A g \in cand : res[g].at <= res[f].at} IN
-          IF best # {} THEN LET f == CHOOSE f \in best : TRUE IN Greedy(c, A, fs \cup {f}, res[f].at)
-          ELSE \* two deviations meet at the same event: try pairs
-               LET pairs == {pr \in SUBSET cand : Cardinality(pr) = 2}
-                   okp   == {pr \in pairs : Expl(c, fs \cup pr)} IN
-               IF okp # {} THEN fs \cup (CHOOSE pr \in okp : TRUE)
-               ELSE LET adv == {pr \in pairs : Accept(c, c.pys, fs \cup pr).at > at} IN
-                    IF adv = {} THEN {}
-                    ELSE LET pr == CHOOSE pr \in adv : \A q \in adv : Accept(c, c.pys, fs \cup q).at <= Accept(c, c.pys, fs \cup pr).at
-                         IN Greedy(c, A, fs \cup pr, Accept(c, c.pys, fs \cup pr).at)
+          IF best # {} THEN LET f == CHOOSE f \in best : TRUE IN Greedy(c, A, fs \cup {f}, res[f].at, at0)
+          ELSE Stuck(c, A, fs, at, at0, 2)
 
 \* drop flags that are not needed (1-minimal explanation)
-RECURSIVE Minim(_, _)
-Minim(c, fs) ==
-  LET drop == {f \in fs : Expl(c, fs \ {f})} IN
-  IF drop = {} \/ Cardinality(fs) = 1 THEN fs ELSE Minim(c, fs \ {CHOOSE f \in drop : TRUE})
+RECURSIVE Minim(_, _, _)
+Minim(c, fs, at0) ==
+  LET drop == {f \in fs : Expl(c, fs \ {f}, at0)} IN
+  IF drop = {} \/ Cardinality(fs) = 1 THEN fs ELSE Minim(c, fs \ {CHOOSE f \in drop : TRUE}, at0)
 
 Explain(c, A, at) ==
-  LET e1 == Exhaust(c, A, 1, 2) IN
+  LET e1 == Exhaust(c, A, 1, 2, at) IN
   IF e1 # {} THEN e1
-  ELSE LET g == Greedy(c, A, {}, at) IN
-       IF g # {} THEN Minim(c, g) ELSE Exhaust(c, A, 3, 3)
+  ELSE LET g == Greedy(c, A, {}, at, at) IN
+       IF g # {} THEN Minim(c, g, at) ELSE Exhaust(c, A, 3, 3, at)
 
 \* Differential conditions.  Recorder ids are creation-order numbers: they line up between the two
 \* runs iff the events occur in the same order.  Where the machine tolerates two placements of an
@@ -132,8 +139,8 @@ Differ(c) ==
   ELSE IF c.pys.exc = "" /\ ~SameBag(c.pys.heap, c.cpy.heap) THEN "final values of recorder objects differ from CPython"
   ELSE ""       \* (an exception can cut off a tolerated, differently placed iteration: heaps not comparable)
 
-Line(c, who, flags, v) == PrintT("REJECT " \o ToJson([id |-> c.id, who |-> who, flags |-> flags, kind |-> v.kind,
-                                                      why |-> v.why, at |-> v.at, nm |-> v.nm]))
+Line(c, who, flags, v, partial) == PrintT("REJECT " \o ToJson([id |-> c.id, who |-> who, flags |-> flags, kind |-> v.kind,
+                                                      why |-> v.why, at |-> v.at, nm |-> v.nm, partial |-> partial]))
 
 VARIABLE i
 Init == i = 1
@@ -142,12 +149,12 @@ Spec == Init /\ [][Next]_i
 Report == i <= Len(Cases) =>
   LET c  == Cases[i]
       vc == Accept(c, c.cpy, {})
-  IN IF ~vc.ok THEN Line(c, "cpy", <<>>, vc)
+  IN IF ~vc.ok THEN Line(c, "cpy", <<>>, vc, FALSE)
      ELSE LET vp == Accept(c, c.pys, {}) IN
           IF vp.ok THEN
                LET d == Differ(c) IN
                IF d = "" THEN TRUE
-               ELSE Line(c, "pys", <<"unexplained">>, [kind |-> "program", why |-> d, at |-> 0, nm |-> FALSE])
+               ELSE Line(c, "pys", <<"unexplained">>, [kind |-> "program", why |-> d, at |-> 0, nm |-> FALSE], FALSE)
           ELSE LET fs == Explain(c, Applicable(c), vp.at) IN
-               Line(c, "pys", IF fs = {} THEN <<"unexplained">> ELSE SetToSeq(fs), vp)
+               Line(c, "pys", IF fs = {} THEN <<"unexplained">> ELSE SetToSeq(fs), vp, fs # {} /\ ~Accept(c, c.pys, fs).ok)
 =============================================================================
